@@ -13,15 +13,21 @@
 //!                    order) and the sink content (as a multiset) are compared with the model
 //!                    composed from the real component functions (M) and, as a multiset, with
 //!                    what CompassApp::run answers for each query alone at parallelism 1 (S).
+//!   stream `energy`: the batch stream on an application with the energy_model traversal (bundled
+//!                    Toyota_Camry smartcore model, three cost features): total_cost and the
+//!                    state_model indices bit for bit; corpus witness: one query 300 times.
+//!   expansion cases (in `batch` / `energy`): one grid query alone vs "every expanded query
+//!                    answered on its own" -- differs exactly in K_child_error_drops_siblings.
 //!   stream `cache` : probe of the prediction cache (FloatCachePolicy behind
 //!                    PredictionModelRecord::predict): is the answer order dependent? reported
 //!                    in the histogram only, never an alarm (D-CACHE).
 //! All helpers that build the application are private to this file.
-use routee_compass::app::compass::compass_app::{apply_input_plugins, run_single_query, CompassApp};
+use routee_compass::app::compass::compass_app::{run_single_query, CompassApp};
 use routee_compass::app::compass::compass_app_error::CompassAppError;
 use routee_compass::app::compass::compass_app_ops::apply_load_balancing_policy;
 use routee_compass::app::compass::config::compass_app_builder::CompassAppBuilder;
 use routee_compass::plugin::input::input_json_extensions::InputJsonExtensions;
+use routee_compass::plugin::input::input_plugin::InputPlugin;
 use routee_compass::plugin::input::input_plugin_ops as in_ops;
 use routee_compass::plugin::plugin_error::PluginError;
 use serde_json::{json, Map, Value};
@@ -156,17 +162,18 @@ struct Ctx {
     apps: HashMap<(usize, bool, bool), CompassApp>,
     pools: HashMap<usize, rayon::ThreadPool>,
     sink_dir: PathBuf,
+    energy: bool, // stream `energy`: every application uses the energy_model traversal (3 cost features)
 }
 impl Ctx {
     fn new(out: &Path, net_seed: u64) -> Ctx {
         let net = write_network(&out.join("net"), net_seed);
         let sink_dir = out.join("sink");
         std::fs::create_dir_all(&sink_dir).unwrap();
-        Ctx { net, apps: HashMap::new(), pools: HashMap::new(), sink_dir }
+        Ctx { net, apps: HashMap::new(), pools: HashMap::new(), sink_dir, energy: false }
     }
     fn app(&mut self, p_cfg: usize, lb: bool, iter: bool) -> &CompassApp {
         if !self.apps.contains_key(&(p_cfg, lb, iter)) {
-            let a = build_app(&self.net, p_cfg, lb, iter);
+            let a = if self.energy { build_energy_app(&self.net, p_cfg, lb, iter) } else { build_app(&self.net, p_cfg, lb, iter) };
             self.apps.insert((p_cfg, lb, iter), a);
         }
         &self.apps[&(p_cfg, lb, iter)]
@@ -185,7 +192,7 @@ fn route_canon(v: &Value) -> Value {
         Value::Array(a) => Value::Array(a.iter().map(route_canon).collect()),
         Value::Object(m) => {
             let mut o = Map::new();
-            for k in ["cost", "traversal_summary", "path"] {
+            for k in ["cost", "traversal_summary", "path", "state_model"] {
                 if let Some(x) = m.get(k) {
                     o.insert(k.to_string(), x.clone());
                 }
@@ -326,50 +333,6 @@ fn answers(req: &Value, q: &Value) -> bool {
     }
     true
 }
-/// number of queries after grid-search expansion, from the query text alone
-fn expected_count(q: &Value) -> usize {
-    match q.get("grid_search").and_then(|g| g.as_object()) {
-        None => 1,
-        Some(g) => {
-            let lens: Vec<usize> = g.values().filter_map(|v| v.as_array().map(|a| a.len())).collect();
-            if lens.is_empty() || lens.iter().any(|l| *l == 0) || serde_json::to_string(g).unwrap().contains("grid_search") {
-                1 // degenerate section: the query is rejected, one error response
-            } else {
-                lens.iter().product()
-            }
-        }
-    }
-}
-
-/// input classes of the two suspected findings (predicates on the query text and configuration)
-/// D-NONOBJ-REQ: a query that is not a JSON object and that no input plugin rejects first (the
-/// load balancer plugin does): the error response carries {"error": "unable to display query"}
-/// as its request.
-fn class_nonobject_request(q: &Value, lb: bool) -> bool {
-    !q.is_object() && !lb
-}
-/// D-GRIDFAIL: a grid search with more than one combination under an input plugin that rejects
-/// one of the children (here: load balancer custom numeric and a child whose
-/// query_weight_estimate is absent or not a number): the whole query is answered by ONE error
-/// response instead of one response per expanded query.
-fn class_grid_partial_failure(q: &Value, lb: bool) -> bool {
-    if !lb || expected_count(q) <= 1 {
-        return false;
-    }
-    let g = q["grid_search"].as_object().unwrap();
-    let mut weights: Vec<Option<Value>> = vec![q.get("query_weight_estimate").cloned()];
-    for (k, v) in g {
-        if let Some(arr) = v.as_array() {
-            if k == "query_weight_estimate" {
-                weights = arr.iter().map(|x| Some(x.clone())).collect();
-            } else if arr.iter().any(|x| x.as_object().map(|o| o.contains_key("query_weight_estimate")).unwrap_or(false)) {
-                return true;
-            }
-        }
-    }
-    weights.iter().any(|w| w.as_ref().map(|x| !x.is_number()).unwrap_or(true))
-}
-
 // ---------------------------------------------------------------- query generation
 
 fn gen_weight(r: &mut Rng) -> Option<Value> {
@@ -603,18 +566,33 @@ struct Cfg {
     reps: usize,
 }
 
-/// what the real component functions answer for one query
-enum PRes {
+enum SRes {
+    Ok(Vec<i64>),
     Err(i64),
-    Kids(Vec<(i64, W, i64)>),
 }
+/// what the real component functions answer, for every JSON value that occurs as a query or as an
+/// element of the plugin state (ids: Elems)
+#[derive(Default)]
 struct Tables {
-    pres: Vec<PRes>,          // per query of the batch
-    alone: Vec<Vec<i64>>,     // CompassApp::run([q]) at parallelism 1: response ids
-    echo_bad: Vec<usize>,     // queries whose alone responses do not carry a request that answers them
-    count_bad: Vec<usize>,    // queries whose number of alone responses is not the expansion size
-                              // (indices into the batch's query list)
-    n_kids: usize,
+    stages: Vec<BTreeMap<i64, SRes>>,          // plugin k: element -> InputPlugin::process outcome
+    nonobj: BTreeMap<i64, (i64, i64)>,         // non-object element -> (not-an-object error, invariant error)
+    kids: BTreeMap<i64, (W, i64)>,             // processed element -> (weight, response)
+    qids: Vec<i64>,                            // element id of every query of the batch
+    alone: BTreeMap<i64, Vec<i64>>,            // query element -> CompassApp::run([q]) at parallelism 1
+    echo_bad: Vec<usize>,                      // batch indices whose alone responses do not carry a request that answers them
+    single_bad: Vec<usize>,                    // batch indices without grid section whose alone run has != 1 response
+    in_k: Vec<bool>,                           // batch index in the class K_child_error_drops_siblings
+    n_expanded: usize,
+}
+struct Elems {
+    ids: HashMap<String, i64>,
+}
+impl Elems {
+    fn id(&mut self, v: &Value) -> i64 {
+        let t = serde_json::to_string(v).unwrap();
+        let n = 1000 + self.ids.len() as i64;
+        *self.ids.entry(t).or_insert(n)
+    }
 }
 
 fn run_cfg(override_p: Option<usize>, discard: bool, sink_file: Option<&Path>) -> Value {
@@ -640,66 +618,121 @@ fn run_cfg(override_p: Option<usize>, discard: bool, sink_file: Option<&Path>) -
     Value::Object(o)
 }
 
-fn build_tables(ctx: &mut Ctx, queries: &[Value], lb: bool, iter: bool, intern: &mut Intern) -> Tables {
-    let mut pres = vec![];
-    let mut alone = vec![];
-    let mut echo_bad = vec![];
-    let mut count_bad = vec![];
-    let mut next_kid = 1000i64;
+/// Emulates the element-wise driver of apply_input_plugins with the app's REAL plugins, calling
+/// InputPlugin::process on every element of every stage (also past a failing sibling, so that the
+/// tables describe every expanded query) and the real weight reader / run_single_query /
+/// package_error on the fully processed elements.
+fn add_query_to_tables(app: &CompassApp, q: &Value, t: &mut Tables, el: &mut Elems, intern: &mut Intern) -> bool {
+    let qid = el.id(q);
+    t.qids.push(qid);
+    if !q.is_object() {
+        let mut c = q.clone();
+        let e1 = in_ops::package_error(&mut c, "query is not a JSON object");
+        let mut c2 = q.clone();
+        let e2 = in_ops::package_invariant_error(Some(&mut c2), None);
+        t.nonobj.insert(qid, (intern.id(canonical(&e1)), intern.id(canonical(&e2))));
+        return false;
+    }
+    let mut cur: Vec<Value> = vec![q.clone()];
+    let mut grid_children = 0usize;
+    let mut later_err = false;
+    for (k, plugin) in app.input_plugins.iter().enumerate() {
+        if t.stages.len() <= k {
+            t.stages.push(BTreeMap::new());
+        }
+        let mut next: Vec<Value> = vec![];
+        for e in &cur {
+            let id = el.id(e);
+            let mut v = e.clone();
+            let outs: Option<Vec<Value>> = match plugin.process(&mut v) {
+                Ok(()) => Some(match v {
+                    Value::Array(a) => a,
+                    other => vec![other],
+                }),
+                Err(err) => {
+                    let resp = in_ops::package_error(&mut v, err);
+                    t.stages[k].insert(id, SRes::Err(intern.id(canonical(&resp))));
+                    if k > 0 {
+                        later_err = true;
+                    }
+                    None
+                }
+            };
+            if let Some(outs) = outs {
+                let ids: Vec<i64> = outs.iter().map(|o| el.id(o)).collect();
+                t.stages[k].insert(id, SRes::Ok(ids));
+                next.extend(outs);
+            }
+        }
+        if k == 0 {
+            grid_children = next.len();
+        }
+        cur = next;
+    }
+    for c in cur {
+        let id = el.id(&c);
+        if !c.is_object() {
+            let mut c1 = c.clone();
+            let e1 = in_ops::package_error(&mut c1, "query is not a JSON object");
+            let mut c2 = c.clone();
+            let e2 = in_ops::package_invariant_error(Some(&mut c2), None);
+            t.nonobj.insert(id, (intern.id(canonical(&e1)), intern.id(canonical(&e2))));
+            continue;
+        }
+        if t.kids.contains_key(&id) {
+            continue;
+        }
+        t.n_expanded += 1;
+        match c.get_query_weight_estimate() {
+            Err(e) => {
+                let mut c2 = c.clone();
+                let resp = in_ops::package_error(&mut c2, e);
+                t.kids.insert(id, (W::Bad, intern.id(canonical(&resp))));
+            }
+            Ok(w) => {
+                let resp = run_single_query(&c, &app.search_orientation, &app.output_plugins, &app.search_app)
+                    .unwrap_or_else(|e| json!({"request": c, "error": format!("run_single_query Err {}", e)}));
+                t.kids.insert(id, (w.map(W::Num).unwrap_or(W::None), intern.id(canonical(&resp))));
+            }
+        }
+    }
+    grid_children >= 2 && later_err
+}
+
+fn build_tables(ctx: &mut Ctx, queries: &[Value], lb: bool, iter: bool, intern: &mut Intern, el: &mut Elems) -> Tables {
+    let mut t = Tables::default();
     let app1 = ctx.app(1, lb, iter);
     let cfg1 = run_cfg(Some(1), false, None);
     for (i, q) in queries.iter().enumerate() {
-        match apply_input_plugins(q, &app1.input_plugins) {
-            Err(e) => pres.push(PRes::Err(intern.id(canonical(&e)))),
-            Ok(children) => {
-                let mut kids = vec![];
-                for c in children {
-                    let kid = next_kid;
-                    next_kid += 1;
-                    match c.get_query_weight_estimate() {
-                        Err(e) => {
-                            let mut c2 = c.clone();
-                            let resp = in_ops::package_error(&mut c2, e);
-                            kids.push((kid, W::Bad, intern.id(canonical(&resp))));
-                        }
-                        Ok(w) => {
-                            let resp = run_single_query(&c, &app1.search_orientation, &app1.output_plugins, &app1.search_app)
-                                .unwrap_or_else(|e| json!({"request": c, "error": format!("run_single_query Err {}", e)}));
-                            kids.push((kid, w.map(W::Num).unwrap_or(W::None), intern.id(canonical(&resp))));
-                        }
-                    }
-                }
-                pres.push(PRes::Kids(kids));
-            }
-        }
+        let k = add_query_to_tables(app1, q, &mut t, el, intern);
+        t.in_k.push(k);
         // the query alone (the property's reference)
         let rs = app1.run(vec![q.clone()], Some(&cfg1)).unwrap_or_else(|e| vec![json!({"request": q, "error": format!("run Err {}", e)})]);
         if !rs.iter().all(|r| r.get("request").map(|req| answers(req, q)).unwrap_or(false)) {
-            echo_bad.push(i);
+            t.echo_bad.push(i);
         }
-        if rs.len() != expected_count(q) {
-            count_bad.push(i);
+        if q.get("grid_search").is_none() && rs.len() != 1 {
+            t.single_bad.push(i);
         }
-        alone.push(rs.iter().map(|r| intern.id(canonical(r))).collect());
+        t.alone.insert(t.qids[i], rs.iter().map(|r| intern.id(canonical(r))).collect());
     }
-    Tables { pres, alone, echo_bad, count_bad, n_kids: (next_kid - 1000) as usize }
+    t
 }
 
 fn coq_tables(t: &Tables) -> String {
-    let entries: Vec<String> = t
-        .pres
-        .iter()
-        .enumerate()
-        .map(|(i, p)| match p {
-            PRes::Err(r) => format!("({}, PErr {})", coq_z(i as i128), coq_z(*r as i128)),
-            PRes::Kids(ks) => format!(
-                "({}, PKids {})",
-                coq_z(i as i128),
-                coq_list(ks, |(k, w, r)| format!("({}, ({}, {}))", coq_z(*k as i128), coq_w(w), coq_z(*r as i128)))
-            ),
+    let stages = coq_list(&t.stages, |m| {
+        coq_list(&m.iter().collect::<Vec<_>>(), |(k, v)| match v {
+            SRes::Ok(l) => format!("({}, SOk {})", coq_z(**k as i128), coq_zl(l)),
+            SRes::Err(r) => format!("({}, SErr {})", coq_z(**k as i128), coq_z(*r as i128)),
         })
-        .collect();
-    format!("[{}]", entries.join("; "))
+    });
+    let nonobj = coq_list(&t.nonobj.iter().collect::<Vec<_>>(), |(k, (a, b))| {
+        format!("({}, ({}, {}))", coq_z(**k as i128), coq_z(*a as i128), coq_z(*b as i128))
+    });
+    let kids = coq_list(&t.kids.iter().collect::<Vec<_>>(), |(k, (w, r))| {
+        format!("({}, ({}, {}))", coq_z(**k as i128), coq_w(w), coq_z(*r as i128))
+    });
+    format!("{{| t_stages := {}; t_nonobj := {}; t_kids := {} |}}", stages, nonobj, kids)
 }
 
 /// one real CompassApp::run; returns the I payload
@@ -719,11 +752,7 @@ fn run_once(ctx: &mut Ctx, queries: &[Value], order: &[usize], cfg: &Cfg, sink_f
             let ret: Vec<i64> = rs.iter().map(|r| intern.id(canonical(r))).collect();
             let wr = if cfg.sink {
                 let text = std::fs::read_to_string(sink_file).unwrap_or_default();
-                let mut ids: Vec<i64> = text
-                    .lines()
-                    .filter(|l| !l.trim().is_empty())
-                    .map(|l| intern.id(canonical_text(l)))
-                    .collect();
+                let mut ids: Vec<i64> = text.lines().filter(|l| !l.trim().is_empty()).map(|l| intern.id(canonical_text(l))).collect();
                 ids.sort();
                 show_list(&ids, |i| i.to_string())
             } else {
@@ -734,6 +763,8 @@ fn run_once(ctx: &mut Ctx, queries: &[Value], order: &[usize], cfg: &Cfg, sink_f
     }
 }
 
+type Cache = HashMap<(bool, bool), (Tables, Intern)>;
+
 fn batch_case(
     st: &mut Stream,
     ctx: &mut Ctx,
@@ -742,13 +773,14 @@ fn batch_case(
     fams: &[&str],
     order: &[usize],
     cfg: &Cfg,
-    tables_cache: &mut HashMap<(bool, bool), (Tables, Intern)>,
+    tables_cache: &mut Cache,
     family: &str,
 ) {
     let id = st.next_id();
     if !tables_cache.contains_key(&(cfg.lb, cfg.iter)) {
         let mut intern = Intern::new();
-        let t = build_tables(ctx, queries, cfg.lb, cfg.iter, &mut intern);
+        let mut el = Elems { ids: HashMap::new() };
+        let t = build_tables(ctx, queries, cfg.lb, cfg.iter, &mut intern, &mut el);
         tables_cache.insert((cfg.lb, cfg.iter), (t, intern));
     }
     let (tables, intern) = tables_cache.get_mut(&(cfg.lb, cfg.iter)).unwrap();
@@ -764,31 +796,20 @@ fn batch_case(
         }
     }
     let _ = std::fs::remove_file(&sink_file);
-    // flags from the independent oracles, restricted to the queries of this batch.  A deviating
-    // query that falls in an input class reported to the coordinator as a suspected finding is
-    // listed under that class in the case description instead of in the flags.
-    let in_batch = |i: &usize| order.contains(i);
-    let mut echo_out: Vec<usize> = vec![];
-    let mut count_out: Vec<usize> = vec![];
-    let mut s_nonobj: Vec<usize> = vec![];
-    let mut s_grid: Vec<usize> = vec![];
-    for i in tables.echo_bad.iter().filter(|i| in_batch(i)) {
-        if class_nonobject_request(&queries[*i], cfg.lb) { s_nonobj.push(*i) } else { echo_out.push(*i) }
-    }
-    for i in tables.count_bad.iter().filter(|i| in_batch(i)) {
-        if class_grid_partial_failure(&queries[*i], cfg.lb) { s_grid.push(*i) } else { count_out.push(*i) }
-    }
+    // flags from the independent oracles, restricted to the queries of this batch
+    let echo_out: Vec<usize> = tables.echo_bad.iter().filter(|i| order.contains(i)).cloned().collect();
+    let single_out: Vec<usize> = tables.single_bad.iter().filter(|i| order.contains(i)).cloned().collect();
     let flags = format!(
-        " echo={} count={}",
+        " echo={} single={}",
         if echo_out.is_empty() { "T".to_string() } else { format!("F{:?}", echo_out).replace(' ', "") },
-        if count_out.is_empty() { "T".to_string() } else { format!("F{:?}", count_out).replace(' ', "") }
+        if single_out.is_empty() { "T".to_string() } else { format!("F{:?}", single_out).replace(' ', "") }
     );
     let i_line = if payload.starts_with("Ok ") { format!("{}{}", payload, flags) } else { payload.clone() };
     // model side
     let p_run_eff = cfg.p_run.unwrap_or(cfg.p_cfg);
-    let order_z: Vec<i64> = order.iter().map(|i| *i as i64).collect();
+    let order_z: Vec<i64> = order.iter().map(|i| tables.qids[*i]).collect();
     let tbl = coq_tables(tables);
-    let alone_coq = coq_list(&tables.alone.iter().enumerate().collect::<Vec<_>>(), |(i, l)| format!("({}, {})", coq_z(*i as i128), coq_zl(l)));
+    let alone_coq = coq_list(&tables.alone.iter().collect::<Vec<_>>(), |(i, l)| format!("({}, {})", coq_z(**i as i128), coq_zl(l)));
     let (impl_ok, impl_ret, impl_wr) = parse_payload(&payload);
     // under the discard policy without a sink the successful responses are observable nowhere
     let spec_applies = !(cfg.discard && !cfg.sink);
@@ -827,7 +848,6 @@ fn batch_case(
     st.count(if cfg.discard { "policy:discard" } else { "policy:persist" });
     st.count(if cfg.sink { "sink:file" } else { "sink:none" });
     st.count(&format!("threads:{}", cfg.threads));
-    let mut classes: Vec<&str> = vec![];
     let mut seen = std::collections::BTreeSet::new();
     for i in order {
         seen.insert(fams[*i]);
@@ -836,26 +856,24 @@ fn batch_case(
         st.count(&format!("has:{}", f));
     }
     let texts = &intern.texts;
-    let n_err = impl_ret.iter().chain(impl_wr.iter()).filter(|r| **r >= 100 && texts.get((**r - 100) as usize).map(|t| t.contains("error:")).unwrap_or(false)).count();
-    let n_ok = impl_ret.len() + impl_wr.len() - n_err;
+    let is_err = |r: &i64| *r >= 100 && texts.get((*r - 100) as usize).map(|t| t.starts_with("{error:")).unwrap_or(false);
+    let all: Vec<i64> = if cfg.sink { impl_wr.clone() } else { impl_ret.clone() };
+    let n_err = all.iter().filter(|r| is_err(r)).count();
+    let n_ok = all.len() - n_err;
     if n_err > 0 && n_ok > 0 {
         st.count("mix:ok_and_error_responses");
     }
-    if texts.iter().any(|t| t.contains("terminated") || t.contains("iteration")) {
+    if texts.iter().any(|t| t.contains("exceeded")) {
         st.count("has:terminated_response");
     }
-    if tables.n_kids > order.len() {
+    if tables.n_expanded > queries.len() {
         st.count("has:expansion");
     }
-    if !s_nonobj.is_empty() {
-        st.count("suspected:D-NONOBJ-REQ");
+    let k_queries: Vec<usize> = order.iter().filter(|i| tables.in_k[**i]).cloned().collect();
+    if !k_queries.is_empty() {
+        st.count("has:query_in_class_K");
     }
-    if !s_grid.is_empty() {
-        st.count("suspected:D-GRIDFAIL");
-    }
-    let _ = &mut classes;
-    let p_eff = p_run_eff;
-    let nontrivial = order.len() >= 2 && p_eff >= 2 && n_err > 0 && n_ok > 0;
+    let nontrivial = order.len() >= 2 && p_run_eff >= 2 && n_err > 0 && n_ok > 0;
     if nontrivial {
         st.mark_nontrivial(&format!("{:?}{:?}{}", order, cfg, serde_json::to_string(queries).unwrap()));
     }
@@ -863,8 +881,7 @@ fn batch_case(
         "id": id, "family": family, "net_seed": net_seed, "queries": queries, "fams": fams, "order": order,
         "p_cfg": cfg.p_cfg, "p_run": cfg.p_run, "lb": cfg.lb, "iter": cfg.iter, "discard": cfg.discard,
         "sink": cfg.sink, "threads": cfg.threads, "reps": cfg.reps,
-        "suspected": {"D-NONOBJ-REQ": s_nonobj, "D-GRIDFAIL": s_grid},
-        "flags": flags.trim(),
+        "queries_in_class_K": k_queries, "flags": flags.trim(),
     });
     if st.full {
         // replay: show what the numbers stand for
@@ -874,6 +891,37 @@ fn batch_case(
         }
     }
     st.case(terms, vec![format!("I {} {}", id, i_line)], desc);
+}
+
+/// one query alone: number and multiset of its responses vs the faithful model (M) and vs
+/// "every expanded query answered on its own" (S); differs exactly in class K
+fn expansion_case(st: &mut Stream, ctx: &mut Ctx, net_seed: u64, q: &Value, lb: bool, iter: bool, family: &str) {
+    let id = st.next_id();
+    let mut intern = Intern::new();
+    let mut el = Elems { ids: HashMap::new() };
+    let t = build_tables(ctx, std::slice::from_ref(q), lb, iter, &mut intern, &mut el);
+    let mut ids = t.alone[&t.qids[0]].clone();
+    ids.sort();
+    let payload = format!("Ok n={} ids={}", ids.len(), show_list(&ids, |i| i.to_string()));
+    let tbl = coq_tables(&t);
+    let terms = vec![
+        format!("expansion_line {} {} {}", id, tbl, coq_z(t.qids[0] as i128)),
+        format!("expansion_spec_line {} {} {}", id, tbl, coq_z(t.qids[0] as i128)),
+    ];
+    st.count(&format!("family:{}", family));
+    st.count(if t.in_k[0] { "expansion:in_class_K" } else { "expansion:outside_K" });
+    if t.n_expanded >= 2 {
+        st.mark_nontrivial(&format!("{}{}{}", q, lb, iter));
+    }
+    let desc = json!({"id": id, "family": family, "kind": "expansion", "net_seed": net_seed, "query": q, "lb": lb, "iter": iter,
+        "in_class_K": t.in_k[0], "expanded": t.n_expanded});
+    if st.full {
+        eprintln!("--- case {} payload: {}", id, payload);
+        for (k, tx) in intern.texts.iter().enumerate() {
+            eprintln!("  response {} = {}", 100 + k, tx);
+        }
+    }
+    st.case(terms, vec![format!("I {} {}", id, payload)], desc);
 }
 
 fn parse_payload(p: &str) -> (bool, Vec<i64>, Vec<i64>) {
@@ -935,15 +983,76 @@ fn gen_cfg(r: &mut Rng, n: usize) -> Cfg {
     }
 }
 
-fn stream_batch(a: &Args) {
+/// energy applications need the vehicle: almost every object query names it (a few do not: error)
+fn with_model_name(qs: &mut [Value], r: &mut Rng) {
+    for q in qs.iter_mut() {
+        if let Some(o) = q.as_object_mut() {
+            if !r.chance(1, 25) {
+                o.insert("model_name".into(), json!("Toyota_Camry"));
+            }
+        }
+    }
+}
+
+/// the same query N times in a row through CompassApp::run on one application: the per-query
+/// stage must be a function of the query (distinct canonical responses = 1)
+fn repeat_case(st: &mut Stream, ctx: &mut Ctx, net_seed: u64, q: &Value, runs: usize, family: &str) {
+    let id = st.next_id();
+    let app = ctx.app(2, false, false);
+    let mut seen: BTreeMap<String, usize> = BTreeMap::new();
+    for _ in 0..runs {
+        let c = match app.run(vec![q.clone()], None) {
+            Ok(rs) => rs.iter().map(canonical).collect::<Vec<_>>().join("|"),
+            Err(e) => format!("Err {}", e),
+        };
+        *seen.entry(c).or_insert(0) += 1;
+    }
+    st.count(&format!("family:{}", family));
+    if st.full {
+        for (k, v) in &seen {
+            eprintln!("  {} x {}", v, k);
+        }
+    }
+    let desc = json!({"id": id, "family": family, "kind": "repeat", "net_seed": net_seed, "query": q, "runs": runs,
+        "distinct": seen.len(), "counts": seen.values().collect::<Vec<_>>()});
+    let payload = format!("distinct={}", seen.len());
+    st.case(
+        vec![format!("line \"M\" {} \"distinct=1\"", id), format!("line \"S\" {} \"distinct=1\"", id)],
+        vec![format!("I {} {}", id, payload)],
+        desc,
+    );
+}
+
+fn corpus_dir(a: &Args) -> Option<PathBuf> {
+    let mut it = a.extra.iter();
+    while let Some(x) = it.next() {
+        if x == "--corpus" {
+            return it.next().map(PathBuf::from);
+        }
+    }
+    None
+}
+
+fn stream_batch(a: &Args, energy: bool) {
     let header = "From Coq Require Import ZArith List String Floats.\nFrom RC Require Import Base.Show Base.Res Model.Batch Model.BatchRun.\nImport ListNotations.\nOpen Scope Z_scope.";
-    let mut st = Stream::new(&a.out, "batch", header, a.shards);
+    let mut st = Stream::new(&a.out, if energy { "energy" } else { "batch" }, header, a.shards);
     if let Some(p) = &a.replay {
         st.full = true;
         let v: Value = serde_json::from_str(&std::fs::read_to_string(p).unwrap()).unwrap();
         let c = &v["case"];
-        let net_seed = c["net_seed"].as_u64().unwrap();
+        let net_seed = c["net_seed"].as_u64().unwrap_or(1);
         let mut ctx = Ctx::new(&a.out, net_seed);
+        ctx.energy = energy;
+        if c["kind"] == json!("repeat") {
+            repeat_case(&mut st, &mut ctx, net_seed, &c["query"], c["runs"].as_u64().unwrap_or(300) as usize, "replay");
+            st.finish();
+            return;
+        }
+        if c["kind"] == json!("expansion") {
+            expansion_case(&mut st, &mut ctx, net_seed, &c["query"], c["lb"].as_bool().unwrap(), c["iter"].as_bool().unwrap(), "replay");
+            st.finish();
+            return;
+        }
         let queries: Vec<Value> = c["queries"].as_array().unwrap().clone();
         let fams_owned: Vec<String> = c["fams"].as_array().unwrap().iter().map(|x| x.as_str().unwrap().to_string()).collect();
         let fams: Vec<&str> = fams_owned.iter().map(|s| leak(s)).collect();
@@ -965,12 +1074,32 @@ fn stream_batch(a: &Args) {
     }
     let net_seed = a.seed;
     let mut ctx = Ctx::new(&a.out, net_seed);
-    let mut rng = Rng::new(a.seed ^ 0xBA7C);
+    ctx.energy = energy;
+    let mut rng = Rng::new(a.seed ^ 0xBA7C ^ if energy { 0xE0000 } else { 0 });
+    // ---- corpus first: witnesses of known findings (expansion cases)
+    if let Some(dir) = corpus_dir(a) {
+        let mut files: Vec<PathBuf> = std::fs::read_dir(&dir).map(|d| d.filter_map(|e| e.ok().map(|e| e.path())).collect()).unwrap_or_default();
+        files.sort();
+        for f in files.iter().filter(|f| f.extension().map(|e| e == "json").unwrap_or(false)) {
+            let v: Value = serde_json::from_str(&std::fs::read_to_string(f).unwrap()).unwrap();
+            let c = &v["case"];
+            if c["kind"] == json!("expansion") && !energy {
+                expansion_case(&mut st, &mut ctx, net_seed, &c["query"], c["lb"].as_bool().unwrap_or(true), c["iter"].as_bool().unwrap_or(false), "corpus");
+            }
+            if c["kind"] == json!("repeat") && energy {
+                repeat_case(&mut st, &mut ctx, net_seed, &c["query"], c["runs"].as_u64().unwrap_or(300) as usize, "corpus");
+            }
+        }
+    }
+    let mut expansions_done: std::collections::HashSet<(String, bool, bool)> = Default::default();
     let base = |p_cfg: usize, p_run: Option<usize>| Cfg { p_cfg, p_run, lb: false, iter: false, discard: false, sink: true, threads: 16, reps: 2 };
     // ---- deterministic boundary families: sizes around the parallelism (chunk arithmetic)
     {
         let mut r = rng.fork();
-        let (qs, fs) = gen_batch(&mut r, &ctx.net, 17);
+        let (mut qs, fs) = gen_batch(&mut r, &ctx.net, 17);
+        if energy {
+            with_model_name(&mut qs, &mut r);
+        }
         for n in [0usize, 1, 2, 3, 4, 5, 7, 8, 9, 15, 16, 17] {
             let mut cache = HashMap::new();
             let sub: Vec<Value> = qs[..n].to_vec();
@@ -994,28 +1123,45 @@ fn stream_batch(a: &Args) {
     }
     // ---- every kind of failing query next to valid ones, one at a time
     {
-        let net = &ctx.net;
-        let valid = json!({"origin_vertex": 0, "destination_vertex": 24, "qid": 0});
+        let (sink_only, isolated) = (ctx.net.sink_only, ctx.net.isolated);
+        let valid = json!({"origin_vertex": 0, "destination_vertex": 24, "qid": 0, "query_weight_estimate": 1});
         let far = json!({"origin_vertex": 0, "destination_vertex": 24, "qid": 1, "query_weight_estimate": 7});
         let bad: Vec<(Value, &'static str)> = vec![
-            (json!({"origin_vertex": 1, "destination_vertex": net.sink_only}), "unreachable"),
-            (json!({"origin_vertex": 1, "destination_vertex": 999}), "bad_vertex"),
-            (json!({"destination_vertex": 3}), "missing_origin"),
-            (json!({"origin_vertex": "a", "destination_vertex": 3}), "ill_typed_origin"),
+            (json!({"origin_vertex": 1, "destination_vertex": sink_only, "query_weight_estimate": 2}), "unreachable"),
+            (json!({"origin_vertex": 1, "destination_vertex": 999, "query_weight_estimate": 2}), "bad_vertex"),
+            (json!({"destination_vertex": 3, "query_weight_estimate": 2}), "missing_origin"),
+            (json!({"origin_vertex": "a", "destination_vertex": 3, "query_weight_estimate": 2}), "ill_typed_origin"),
             (json!({"origin_vertex": 1, "destination_vertex": 3, "query_weight_estimate": "abc"}), "ill_typed_weight"),
-            (json!({"origin_vertex": 1, "grid_search": {"destination_vertex": [2, 7, net.isolated]}, "query_weight_estimate": 2.5}), "grid"),
+            (json!({"origin_vertex": 1, "destination_vertex": 3}), "no_weight"),
+            (json!({"origin_vertex": 1, "grid_search": {"destination_vertex": [2, 7, isolated]}, "query_weight_estimate": 2.5}), "grid"),
             (json!({"origin_vertex": 1, "destination_vertex": 3, "grid_search": {}}), "grid_degenerate"),
             (json!({"origin_vertex": 1, "destination_vertex": 3, "grid_search": {"query_weight_estimate": [1, "x", 3]}}), "grid_weight"),
             (json!(5), "non_object"),
+            (json!([{"origin_vertex": 1, "destination_vertex": 3}, {"origin_vertex": 2, "destination_vertex": 3}]), "non_object"),
         ];
         for (b, fam) in bad {
-            let qs = vec![valid.clone(), b.clone(), far.clone(), b.clone(), valid.clone()];
+            let mut qs = vec![valid.clone(), b.clone(), far.clone(), b.clone(), valid.clone()];
+            if energy {
+                for q in qs.iter_mut() {
+                    if let Some(o) = q.as_object_mut() {
+                        o.insert("model_name".into(), json!("Toyota_Camry"));
+                    }
+                }
+            }
+            let b = qs[1].clone();
             let fs = vec!["valid", fam, "valid", fam, "valid"];
             let order: Vec<usize> = (0..qs.len()).collect();
             let mut cache = HashMap::new();
             for (lb, iter, discard) in [(false, false, false), (true, false, false), (false, true, true), (true, true, false)] {
                 let cfg = Cfg { p_cfg: 2, p_run: Some(3), lb, iter, discard, sink: true, threads: 4, reps: 2 };
                 batch_case(&mut st, &mut ctx, net_seed, &qs, &fs, &order, &cfg, &mut cache, "one_failing_kind");
+            }
+            if b.get("grid_search").is_some() {
+                for lb in [false, true] {
+                    if expansions_done.insert((b.to_string(), lb, false)) {
+                        expansion_case(&mut st, &mut ctx, net_seed, &b, lb, false, "expansion");
+                    }
+                }
             }
         }
     }
@@ -1029,9 +1175,13 @@ fn stream_batch(a: &Args) {
             10 => 50 + r.below(60) as usize,
             _ => 120 + r.below(81) as usize,
         };
-        let (qs, fs) = gen_batch(&mut r, &ctx.net, n);
+        let (mut qs, fs) = gen_batch(&mut r, &ctx.net, n);
+        if energy {
+            with_model_name(&mut qs, &mut r);
+        }
         let mut cache = HashMap::new();
         let k = if n > 100 { 4 } else { 8 };
+        let mut variants: std::collections::BTreeSet<(bool, bool)> = Default::default();
         for j in 0..k {
             if st.next_id() >= a.n {
                 break;
@@ -1041,8 +1191,171 @@ fn stream_batch(a: &Args) {
                 r.shuffle(&mut order);
             }
             let cfg = gen_cfg(&mut r, n);
+            variants.insert((cfg.lb, cfg.iter));
             batch_case(&mut st, &mut ctx, net_seed, &qs, &fs, &order, &cfg, &mut cache, "random");
         }
+        // every distinct grid query of the batch, alone (bounded: at most 6 per batch)
+        let mut budget = 6;
+        for q in qs.iter().filter(|q| q.get("grid_search").is_some()) {
+            for (lb, iter) in variants.iter() {
+                if budget > 0 && st.next_id() < a.n && expansions_done.insert((q.to_string(), *lb, *iter)) {
+                    expansion_case(&mut st, &mut ctx, net_seed, q, *lb, *iter, "expansion");
+                    budget -= 1;
+                }
+            }
+        }
+    }
+    st.finish();
+}
+
+// ---------------------------------------------------------------- stream cache (probe, never an alarm)
+
+fn build_energy_app(net: &Net, p_cfg: usize, lb: bool, iter: bool) -> CompassApp {
+    let lbp = if lb {
+        ",\n  { type = \"load_balancer\", weight_heuristic = { type = \"custom\", custom_weight_type = { type = \"numeric\" } } }"
+    } else {
+        ""
+    };
+    let mut toml = energy_toml(net, None)
+        .replace("parallelism = 1\n", &format!("parallelism = {}\n", p_cfg))
+        .replace("input_plugins = []", &format!("input_plugins = [\n  {{ type = \"grid_search\" }}{}\n]", lbp))
+        .replace("distance = 0\ntime = 0\nenergy_liquid = 1", "distance = 1\ntime = 1\nenergy_liquid = 1");
+    if iter {
+        toml = toml.replace("[access]", &format!("[termination]\ntype = \"iterations\"\nlimit = {}\n[access]", ITER_LIMIT));
+    }
+    let conf = net.dir.join(format!("energy_{}_{}_{}.toml", p_cfg, lb, iter));
+    std::fs::write(&conf, &toml).unwrap();
+    CompassApp::try_from_config_toml_string(toml, conf.to_str().unwrap().to_string(), &CompassAppBuilder::default())
+        .unwrap_or_else(|e| panic!("energy app build failed: {}", e))
+}
+
+fn energy_toml(net: &Net, cache: Option<(i32, i32)>) -> String {
+    let d = net.dir.to_str().unwrap();
+    let cache_line = match cache {
+        Some((ps, pg)) => format!("float_cache_policy = {{ cache_size = 1000, key_precisions = [{}, {}] }}\n", ps, pg),
+        None => String::new(),
+    };
+    format!(
+        r#"parallelism = 1
+search_orientation = "vertex"
+response_persistence_policy = "persist_response_in_memory"
+[response_output_policy]
+type = "none"
+[graph]
+edge_list_input_file = "{d}/edges.csv"
+vertex_list_input_file = "{d}/vertices.csv"
+verbose = false
+[traversal]
+type = "energy_model"
+time_model_speed_unit = "kilometers_per_hour"
+grade_table_grade_unit = "decimal"
+time_unit = "minutes"
+distance_unit = "miles"
+[traversal.time_model]
+type = "speed_table"
+speed_table_input_file = "{d}/speeds.csv"
+speed_unit = "kilometers_per_hour"
+distance_unit = "miles"
+time_unit = "minutes"
+[[traversal.vehicles]]
+name = "Toyota_Camry"
+type = "ice"
+model_input_file = "/repo/rust/routee-compass-powertrain/src/routee/test/Toyota_Camry.bin"
+model_type = "smartcore"
+speed_unit = "miles_per_hour"
+grade_unit = "decimal"
+energy_rate_unit = "gallons_gasoline_per_mile"
+ideal_energy_rate = 0.02857143
+real_world_energy_adjustment = 1.166
+{cache_line}[access]
+type = "no_access_model"
+[cost]
+cost_aggregation = "sum"
+[cost.weights]
+distance = 0
+time = 0
+energy_liquid = 1
+[cost.vehicle_rates.time]
+type = "raw"
+[cost.vehicle_rates.distance]
+type = "raw"
+[cost.vehicle_rates.energy_liquid]
+type = "raw"
+[plugin]
+input_plugins = []
+output_plugins = [
+  {{ type = "summary" }},
+  {{ type = "traversal", route = "edge_id", geometry_input_file = "{d}/geoms.txt" }},
+]
+"#,
+        d = d,
+        cache_line = cache_line
+    )
+}
+
+fn stream_cache(a: &Args) {
+    let header = "From Coq Require Import ZArith List String.\nFrom RC Require Import Base.Show.\nImport ListNotations.\nOpen Scope Z_scope.";
+    let mut st = Stream::new(&a.out, "cache", header, a.shards);
+    let seed = if let Some(p) = &a.replay {
+        st.full = true;
+        let v: Value = serde_json::from_str(&std::fs::read_to_string(p).unwrap()).unwrap();
+        v["case"]["net_seed"].as_u64().unwrap_or(1)
+    } else {
+        a.seed
+    };
+    let net = write_network(&a.out.join("net"), seed);
+    let build = |cache: Option<(i32, i32)>, tag: &str| -> Result<CompassApp, String> {
+        let toml = energy_toml(&net, cache);
+        let conf = net.dir.join(format!("energy_{}.toml", tag));
+        std::fs::write(&conf, &toml).unwrap();
+        CompassApp::try_from_config_toml_string(toml, conf.to_str().unwrap().to_string(), &CompassAppBuilder::default()).map_err(|e| e.to_string())
+    };
+    let mut rng = Rng::new(seed ^ 0xCAC4E);
+    let n_cases = if a.replay.is_some() { 1 } else { a.n };
+    for _ in 0..n_cases {
+        let id = st.next_id();
+        let mut r = rng.fork();
+        let prec = *r.pick(&[(-1, 0), (0, 0), (-1, 2), (2, 4)]);
+        let k = 2 + r.below(3) as usize;
+        let qs: Vec<Value> = (0..k)
+            .map(|i| json!({"origin_vertex": r.below(net.n_grid as u64), "destination_vertex": r.below(net.n_grid as u64), "model_name": "Toyota_Camry", "qid": i}))
+            .collect();
+        let run_all = |cache: Option<(i32, i32)>, order: Vec<usize>| -> Result<Vec<String>, String> {
+            let app = build(cache, "probe")?; // a fresh application = an empty cache
+            let mut out = vec![String::new(); qs.len()];
+            for i in order {
+                let rs = app.run(vec![qs[i].clone()], None).map_err(|e| e.to_string())?;
+                out[i] = rs.iter().map(canonical).collect::<Vec<_>>().join("|");
+            }
+            Ok(out)
+        };
+        let fwd: Vec<usize> = (0..k).collect();
+        let rev: Vec<usize> = (0..k).rev().collect();
+        // control: without a cache the order must not matter
+        if let (Ok(p1), Ok(p2)) = (run_all(None, fwd.clone()), run_all(None, rev.clone())) {
+            st.count(if p1 == p2 { "control:uncached_order_independent" } else { "control:uncached_ORDER_DEPENDENT" });
+        }
+        let verdict = match (run_all(None, fwd.clone()), run_all(Some(prec), fwd), run_all(Some(prec), rev)) {
+            (Ok(plain), Ok(c1), Ok(c2)) => {
+                let order_dep = c1 != c2;
+                let differs = c1 != plain || c2 != plain;
+                st.count(if order_dep { "cache:order_dependent" } else { "cache:order_independent" });
+                st.count(if differs { "cache:differs_from_uncached" } else { "cache:same_as_uncached" });
+                if order_dep {
+                    st.mark_nontrivial(&format!("{:?}{:?}", prec, qs));
+                }
+                format!("order_dependent={} differs_from_uncached={}", show_bool(order_dep), show_bool(differs))
+            }
+            (x, y, z) => {
+                st.count("cache:not_configurable");
+                format!("not_configurable {:?}", x.err().or(y.err()).or(z.err()).unwrap_or_default().chars().take(120).collect::<String>())
+            }
+        };
+        st.count(&format!("key_precisions:{:?}", prec));
+        let desc = json!({"id": id, "family": "cache_probe", "net_seed": seed, "key_precisions": [prec.0, prec.1], "queries": qs, "verdict": verdict});
+        // informational: the model line repeats the observation (D-CACHE is a known design limitation,
+        // Props c06_cache_refuted / c06_cache_transparent_if_stable say when it can be observed)
+        st.case(vec![format!("line \"M\" {} \"probed\"", id)], vec![format!("I {} probed", id)], desc);
     }
     st.finish();
 }
@@ -1056,21 +1369,9 @@ fn main() {
     let a = parse_args();
     match a.stream.as_str() {
         "lb" => stream_lb(&a),
-        "batch" => stream_batch(&a),
-        "probe" => {
-            let mut ctx = Ctx::new(&a.out, 1);
-            let app = ctx.app(1, a.extra.contains(&"lb".to_string()), a.extra.contains(&"iter".to_string()));
-            let q = json!({"a":1,"b":2,"destination_vertex":5,"origin_vertex":11,"qid":10});
-            let mut seen: BTreeMap<String, usize> = BTreeMap::new();
-            for _ in 0..200 {
-                let r = run_single_query(&q, &app.search_orientation, &app.output_plugins, &app.search_app).unwrap();
-                let idx = r["route"]["state_model"]["distance"]["index"].clone();
-                *seen.entry(format!("dist_index={} {}", idx, canonical(&r))).or_insert(0) += 1;
-            }
-            for (k, v) in seen {
-                println!("{} x {}", v, k);
-            }
-        }
+        "batch" => stream_batch(&a, false),
+        "energy" => stream_batch(&a, true),
+        "cache" => stream_cache(&a),
         other => panic!("unknown stream {}", other),
     }
 }
